@@ -193,10 +193,46 @@ def check_shapes(eng, run):
         run.ob("C11.zero", fn.short, ok)
 
 
+def _plain_lock_withs(fn):
+    """`with <lock>:` items that wait for a lock without any budget (not through lock_with_timeout)"""
+    out = []
+    for n in own_nodes(fn.node):
+        if isinstance(n, ast.With):
+            for it in n.items:
+                ce = it.context_expr
+                d = (dotted(ce.func.value) if isinstance(ce, ast.Call) and isinstance(ce.func, ast.Attribute) and ce.func.attr == "get" and not ce.args else dotted(ce)) or ""
+                if d.lower().endswith("lock") and not (isinstance(ce, ast.Call) and (dotted(ce.func) or "").endswith("lock_with_timeout")):
+                    out.append((n, d))
+    return out
+
+
+def check_unbudgeted_locks(eng, run):
+    """a zero / finite timeout never waits without a bound: a function that carries a time budget acquires locks only through
+    lock_with_timeout(), directly and in the same-class helpers it calls (is_closed(), ...)"""
+    n = 0
+    for fn, var in budget_functions(eng):
+        if fn.cls is None or not fn.module.name.startswith("easynetwork.clients"):
+            continue
+        n += 1
+        bad = [(w, d, None) for w, d in _plain_lock_withs(fn)]
+        for c in own_nodes(fn.node):
+            if isinstance(c, ast.Call) and isinstance(c.func, ast.Attribute) and dotted(c.func.value) == fn.self_name:
+                m = fn.cls.find_method(c.func.attr)
+                if m is not None and m is not fn and not isinstance(m.node, ast.Lambda):
+                    for w, d in _plain_lock_withs(m):
+                        bad.append((c, d, m))
+        for node, d, via in bad[:2]:
+            run.finding("C11.thread", fn, _stmt_at(fn, node.lineno), f"`{d}` is waited for without a bound" + (f" (inside {via.short}())" if via is not None else "") +
+                        f" in a call that carries the budget `{var}`: with a zero or small timeout the call blocks for as long as another thread holds that lock")
+        run.ob("C11.thread", f"{fn.module.name.split('.')[-1]}:{fn.short}:locks-only-through-lock_with_timeout", not bad)
+    run.floor("C11.thread budgeted client methods", n, 8)
+
+
 def run(eng, run):
     run.not_decided += NOT_DECIDED
     check_budget(eng, run)
     check_shapes(eng, run)
+    check_unbudgeted_locks(eng, run)
 
 
 # ---------------------------------------------------------------------------------------------- self-test corpus
@@ -245,4 +281,15 @@ BENIGN = [
     Variant("send-all-recompute-via-local", _SA,
             lambda fn: replace_stmt(fn, stmt_is("timeout = elapsed.recompute_timeout(timeout)"), "timeout = elapsed.recompute_timeout(timeout)\nremaining = timeout"), why="extra local"),
     Variant("receiver-rename-elapsed", _SR, lambda fn: rename_local(fn, "elapsed", "timer"), why="timer renamed"),
+]
+
+_TCPR = _TCP + ".recv_packet"
+MUTANTS += [
+    Variant("recv-packet-closed-check-through-public-is-closed", _TCPR, lambda fn: replace_expr(fn, "endpoint.is_closed()", "self.is_closed()"), "C11.thread",
+            why="recv_packet(timeout=0) waits for the send lock held by a stalled sender (seed C11-4)"),
+    Variant("retry-ready-wakeup-not-charged", _RETRY, lambda fn: replace_stmt(fn, stmt_is("timeout = elapsed.recompute_timeout(timeout)"),
+                                                                         "if available and is_retry_interval:\n    continue\ntimeout = elapsed.recompute_timeout(timeout)"), "C11.cycle",
+            why="drip-fed readiness: the waits that end with a ready fd are never deducted (seed C11-6)"),
+    Variant("tcp-send-lock-wait-not-deducted", _TCP + ".send_packet", lambda fn: [setattr(it, "optional_vars", None) for w in ast.walk(fn) if isinstance(w, ast.With) for it in w.items if "lock_with_timeout" in ast.unparse(it.context_expr)], "C11.cycle",
+            why="the send gets the caller's full timeout after waiting for the lock (seed C11-5)"),
 ]
